@@ -78,7 +78,9 @@ IsPrefix2(p, q) == Len(p) <= Len(q) /\ SubSeq(q, 1, Len(p)) = p
 ProperPrefixes(p) == {SubSeq(p, 1, k) : k \in 0..(Len(p) - 1)}
 Strip(p, q) == SubSeq(q, Len(p) + 1, Len(q))
 
-\* the path runs through a leaf: the helpers raise; outside the domain
+\* the path runs through a leaf: nothing is there to read or to delete (get_in
+\* gives the default, delete_in changes nothing); writing through a leaf
+\* (assoc_path, update_in) is outside the domain
 ThroughLeaf(D, p) == \E q \in ProperPrefixes(p) : q \in DOMAIN D.lf
 
 SubDict(D, p) ==
@@ -115,8 +117,8 @@ DictRows(D) ==
   {[p |-> p,
     through |-> ThroughLeaf(D, p),
     get |-> GetIn(D, p),
-    assoc |-> IF p = <<>> THEN D ELSE AssocLeaf(D, p, 9),
-    del |-> DeleteIn(D, p)] : p \in {q \in DictPaths : ~ThroughLeaf(D, q)}}
+    assoc |-> IF p = <<>> \/ ThroughLeaf(D, p) THEN D ELSE AssocLeaf(D, p, 9),
+    del |-> DeleteIn(D, p)] : p \in DictPaths}
 
 -----------------------------------------------------------------------------
 (* the model: one state per table entry; the laws are invariants           *)
@@ -189,7 +191,7 @@ Entry(x) ==
     THEN [kind |-> "tree", tree |-> x.tree, walk |-> WalkRows(x.tree),
           pathto |-> PathToRows(x.tree)]
     ELSE [kind |-> "dict", dn |-> x.d.dn, lf |-> LeafRows(x.d),
-          rows |-> {[p |-> r.p, get |-> r.get.kind,
+          rows |-> {[p |-> r.p, through |-> r.through, get |-> r.get.kind,
                      getv |-> IF r.get.kind = "leaf" THEN r.get.v ELSE 0,
                      getdn |-> IF r.get.kind = "dict" THEN r.get.d.dn ELSE {},
                      getlf |-> IF r.get.kind = "dict" THEN LeafRows(r.get.d) ELSE {},
